@@ -132,6 +132,15 @@ def check_parser_side(ctx, lib):
     rule = "parser-composition"
     check_top_level(ctx, lib, rule)
     ctx.attempt("check_arm_results", check_arm_results, ctx, lib, rule)
+    # which tokens belong to a projection's right-hand side (and to each operand) is part of "the parts": the operand-power
+    # rows of C04 (every operand / right-hand side is parsed with the documented power of its own operator)
+    from ..parsing import lbp_table
+    from .c04 import check_operands
+    table, why = lbp_table(lib)
+    if table is None:
+        ctx.missing(rule, "Token::lbp", why)
+    else:
+        ctx.attempt("check_operands", check_operands, ctx, lib, table)
     b = ctx.fn(P + "led", rule=rule)
     if b is None:
         return
